@@ -225,6 +225,112 @@ Definition e_c18_rescale (v : val) : val :=
   | None => bad_input
   end.
 
+(* ---- extension: IEEE cells, any summary function ------------------------------------------------- *)
+
+Definition getXr (v : val) : option xr :=
+  match v with
+  | VNone => Some RNaN
+  | VS s => if String.eqb s "inf" then Some RPInf else if String.eqb s "-inf" then Some RNInf else None
+  | _ => match getQ v with Some q => Some (RFin q) | None => None end
+  end.
+
+Definition vXr (x : xr) : val :=
+  match x with RFin q => VQ (Qred q) | RPInf => VS "inf" | RNInf => VS "-inf" | RNaN => VNone end.
+
+(* list of [t; n] (number | "inf" | "-inf" | None) -> _tumor_boost per element as numpy evaluates it *)
+Definition e_c18_boost_ieee (v : val) : val :=
+  match getList (getPair getXr getXr) v with
+  | Some l => VL (map (fun p => vXr (boost_ieee (fst p) (snd p))) l)
+  | None => bad_input
+  end.
+
+(* list of [above; value] -> _mirrored_baf per element with a given direction *)
+Definition e_c18_mirror_ieee (v : val) : val :=
+  match getList (getPair getB getXr) v with
+  | Some l => VL (map (fun p => vXr (mirror_ieee (fst p) (snd p))) l)
+  | None => bad_input
+  end.
+
+(* [above_half; values] -> _mirrored_baf of a whole vector (direction from its median when not given) *)
+Definition e_c18_mirror_vec (v : val) : val :=
+  match getPair getOB (getList getXr) v with
+  | Some (ah, vals) =>
+      let above := match ah with
+                   | Some b => b
+                   | None => xr_ltb (RFin VcfDefaults.mirror_center) (median_r vals)
+                   end in
+      VL (map (fun x => vXr (mirror_ieee above x)) vals)
+  | None => bad_input
+  end.
+
+(* as e_c18_mirrored, over IEEE cells (tables with infinite frequencies, normal frequency 1):
+   queries = list of [above_half; tumor_boost] -> mirrored_baf vectors, then the tumor_boost() vector *)
+Definition e_c18_mirrored_r (v : val) : val :=
+  match v with
+  | VL [h; recs; s; n; stage; md; ss; zf; queries] =>
+      match getHeader h, getList getRec recs, getSel s, getSel n with
+      | Some h, Some recs, Some s, Some n =>
+      match getZ stage, getOZ md, getB ss, getOQ zf with
+      | Some stage, Some md, Some ss, Some zf =>
+      match getList (getPair getOB getB) queries with
+      | Some qs =>
+          vRes (fun t =>
+                  VL [VL (map (fun q => VL (map vXr (mirrored_baf_r (ht_paired t) (ht_rows t) (fst q) (snd q)))) qs);
+                      if ht_paired t then VL (map (fun lr => vXr (boost_row_r (snd lr))) (ht_rows t)) else VNone])
+               (source_table h recs s n stage md ss zf)
+      | None => bad_input end
+      | _, _, _, _ => bad_input end
+      | _, _, _, _ => bad_input end
+  | _ => bad_input
+  end.
+
+Definition summary_by_name (s : string) : option (list xq -> xq) :=
+  if String.eqb s "median" then Some nanmedian_x
+  else if String.eqb s "mean" then Some nanmean_x
+  else if String.eqb s "min" then Some nanmin_x
+  else if String.eqb s "max" then Some nanmax_x
+  else None.
+
+(* as e_c18_baf with a summary function per query:
+   queries = list of [[ranges; above_half; tumor_boost]; name] *)
+Definition e_c18_baf_gen (v : val) : val :=
+  match v with
+  | VL [h; recs; s; n; stage; md; ss; zf; queries] =>
+      match getHeader h, getList getRec recs, getSel s, getSel n with
+      | Some h, Some recs, Some s, Some n =>
+      match getZ stage, getOZ md, getB ss, getOQ zf with
+      | Some stage, Some md, Some ss, Some zf =>
+      match getList (getPair (getTriple (getList getRange) getOB getB) getS) queries with
+      | Some qs =>
+          vRes (fun t =>
+                  VL (map (fun q => let '((rg, ah, tb), name) := q in
+                                    match summary_by_name name with
+                                    | Some f => vXqs (baf_by_ranges_gen f (ht_paired t) (ht_rows t) rg ah tb)
+                                    | None => bad_input
+                                    end) qs))
+               (source_table h recs s n stage md ss zf)
+      | None => bad_input end
+      | _, _, _, _ => bad_input end
+      | _, _, _, _ => bad_input end
+  | _ => bad_input
+  end.
+
+(* [name; above_half; values] -> the value of one range for summary function `name` *)
+Definition e_c18_summary_gen (v : val) : val :=
+  match getTriple getS getOB (getList getOQ) v with
+  | Some (name, ah, vals) =>
+      let hits := map (fun o => match o with Some q => Fin q | None => XNaN end) vals in
+      match summary_by_name name with
+      | Some f =>
+          vXq (match ah with
+               | Some b => s2v_gen f (map (mirror_x b) hits)
+               | None => s2v_gen (summarize_gen f) hits
+               end)
+      | None => bad_input
+      end
+  | None => bad_input
+  end.
+
 (* [above_half; values] -> series2value: the per-range summary on its own *)
 Definition e_c18_summary (v : val) : val :=
   match getPair getOB (getList getOQ) v with
